@@ -108,8 +108,13 @@ TWork(w) ==
 
 (* --- tags *)
 Count(s, t) == Cardinality({i \in 1 .. Len(s) : s[i] = t})
+RangeOf(s) == {s[i] : i \in 1 .. Len(s)}
+(* equality as bags; without repeated elements (the usual case: tag ids are   *)
+(* unique) this is set equality, which TLC does in n log n                    *)
 SameBag(a, b) == /\ Len(a) = Len(b)
-                 /\ \A i \in 1 .. Len(a) : Count(a, a[i]) = Count(b, a[i])
+                 /\ IF Cardinality(RangeOf(a)) = Len(a) /\ Cardinality(RangeOf(b)) = Len(b)
+                    THEN RangeOf(a) = RangeOf(b)
+                    ELSE \A i \in 1 .. Len(a) : Count(a, a[i]) = Count(b, a[i])
 PKeys == {"p0", "p1", "p2"}
 (* Expected image of the first input's tags under the block's index map.    *)
 MapIdx(tm, a) ==
